@@ -18,6 +18,9 @@ use serde_json::{json, Value};
 use simcore::{arg, flag, mix, Journal, Rng, Stats};
 use zoo::*;
 
+/// wall-clock seconds one evaluation may take before the process is ended by SIGALRM
+const EVAL_ALARM_SECONDS: u32 = 20;
+
 struct Ctx {
     stats: Stats,
     journal: Journal,
@@ -51,7 +54,12 @@ impl Ctx {
             cj["_image_len"] = json!(env.ref_bytes.len());
             let _ = f.write_all(format!("B {} {} {}\n", self.job, idx, cj).as_bytes());
         }
-        let out = match exec_in(case, env) {
+        // CPU-loop watchdog: a retry loop that never touches the device cannot be stopped by the device's call
+        // budget; SIGALRM ends the process, the driver attributes the death to this evaluation
+        unsafe { libc::alarm(EVAL_ALARM_SECONDS) };
+        let r = exec_in(case, env);
+        unsafe { libc::alarm(0) };
+        let out = match r {
             Ok(o) => o,
             Err(e) => {
                 self.count("harness_error", 1);
@@ -1091,6 +1099,7 @@ fn main() {
                     }
                 }
             }
+            unsafe { libc::alarm(EVAL_ALARM_SECONDS) };
             let res: Result<EvalSummary, String> = if case.prop == "C06" && !flag(&args, "--no-fork") {
                 prepare(&case).and_then(|mut env| forked_summary(&case, &mut env, 6 << 30))
             } else {
